@@ -380,11 +380,13 @@ class C06(Base):
 class C07(Base):
     ID = "C07"
     TECHNIQUE = ('deterministic simulation: run-groups executed on the reference machine with a simulated cost clock; makespan compared with exact reference recurrences (validated by exact search) and group inequalities')
-    EXPECTED_PROBES = ('hrevolve_used_disk', 'disk_checkpoint_reread', 'c07_inexact_costs')
+    EXPECTED_PROBES = ('hrevolve_used_disk', 'disk_checkpoint_reread', 'c07_inexact_costs', 'c07_rescaled_costs')
     BATCH = 4
     SIZES = {"quick": (48, 48), "thorough": (128, 128)}
     #: share of groups whose cost vector is not exact in binary floating point
     INEXACT = 0.15
+    #: share of the other groups whose cost vector is rescaled by 2^k
+    RESCALED = 0.1
     #: relative tolerance for those groups only
     TOL = Fraction(1, 10 ** 9)
     RULE = ("run-groups with equal (N, RAM units, cost vector): HRevolve for "
@@ -397,7 +399,9 @@ class C07(Base):
             "costs on the dyadic grid k/8, 80% with uf!=ub and wd!=rd; 15% of "
             "the groups use costs that are not exact in binary floating point "
             "(tenths, thirds, sevenths): there the comparison allows a "
-            "relative 1e-9 (the library plans with the nearest doubles); "
+            "relative 1e-9 (the library plans with the nearest doubles); 10% of"
+            " the remaining groups have their cost vector multiplied by 2^k, k"
+            " in {-40, -34, -20, 20, 30} (still exact: equality demanded); "
             "non-trivial = some HRevolve member of the group wrote to DISK "
             "or uf != ub")
     ASSUMPTIONS = [
@@ -419,6 +423,12 @@ class C07(Base):
         costs = draw_costs(rng, default_p=0.05)
         if rng.random() < self.INEXACT:
             costs = draw_costs_inexact(rng)
+        elif rng.random() < self.RESCALED:
+            # the whole vector times a power of two: exact in binary floating
+            # point, so the streams must not change and the optimum scales
+            k = rng.choice((-40, -34, -20, 20, 30))
+            f = Fraction(2) ** k
+            costs = {c: str(Fraction(v) * f) for c, v in costs.items()}
         dmax = rng.choice((1, 2, 3, 4, 6))
         ds = sorted({0, 1, dmax, rng.randint(0, dmax), rng.randint(0, dmax)})
         slots = [({"cls": "HRevolve", "N": N, "p": dict(costs, s=s, d=d)}, 1,
@@ -453,6 +463,8 @@ class C07(Base):
             tol = 0 if O.costs_exact_in_binary(p) else self.TOL
             if tol:
                 w.probe("c07_inexact_costs")
+            elif O.cost_scale(p) > 8:
+                w.probe("c07_rescaled_costs")
             if exp is not None:
                 if got > exp * (1 + tol):
                     self.own(w, f"cost_above_optimum:{s.cls}", s,
@@ -793,6 +805,8 @@ class C16(Base):
         "be; the tabulated planner runs as plain Python",
     ]
 
+    LONG = {"quick": 0.05, "thorough": 0.05}
+
     def plan(self, rng, tier, idx):
         nmax, _ = self.SIZES[tier]
         if idx == 0:
@@ -812,6 +826,11 @@ class C16(Base):
         s = draw_units(rng, N, 1 if N > 1 else 0)
         if rng.random() < 0.5:
             s = rng.randint(1, max(1, min(N, 8)))
+        if rng.random() < self.LONG[tier]:
+            # step indices beyond 64 / 128 with few units (about 1 s on the
+            # un-jitted tabulated path)
+            N = rng.randint(66, 140)
+            s = rng.randint(1, 4)
         st = rng.choice(("RAM", "DISK"))
         cfg = {"cls": "Mixed", "N": N, "p": {"s": s, "storage": st}}
         first = rng.choice(("memo", "tabulated"))
